@@ -55,7 +55,13 @@ def make_cases(seed: int, tier: str, n_cases: int | None = None) -> list[dict]:
             o = _combo(idx * n_sched + j + seed, pkg)
             if rs.random() < 0.35:
                 o["verbose"] = True  # -v: info messages (paths, ids) are formatted and written to stderr
-            hist.append([{"sigma": engine.sample_sigma(rs, sorted(dims)), "options": o}])
+            sigma = engine.sample_sigma(rs, sorted(dims))
+            if j == 0:
+                # one schedule run of every case lists every directory in the exact reverse of the reference run's order
+                # (with the reference's test-run flag, so that the sets of analysed modules are comparable)
+                sigma["enum"] = {"mode": "reversed"}
+                o["tr"] = bool(options.get("tr"))
+            hist.append([{"sigma": sigma, "options": o}])
         cases.append({"index": idx, "case_seed": cs, "verif_seed": seed, "pkg": pkg, "options": options, "histories": hist,
                       "params": {"tier": tier, "n_fault": 3 if tier == "quick" else 4, "n_sched": n_sched}, "planned": False})
     return cases
